@@ -14,6 +14,7 @@ EXPLANATION = (
     '(R3 also, shared with C05.R4: a reached wake-up is cleared on activation; R5 also: timer resolution, shared with C05.R9.) '
     "(R1 also: the drain of runnable tasks happens inside the future the runtime drives; R3 also: every dispatched wake-up event reaches the activation; R7) the final turn of the tasks is taken before their outcomes are joined. "
     "(R4 also: no future of des charges tokio's cooperative task budget.) "
+    '(R5 also, shared with C05.R1: Driver::next is the search over the live slots, unconditionally.) '
     "Decides these necessary conditions only; the number "
     "of tasks and the length of wake-up chains at run time are not bounded statically.")
 ASSUMPTIONS = ["tokio's current-thread scheduler polls at most `event_interval` (default 61) tasks between two polls of the block_on future (documented)",
